@@ -45,10 +45,12 @@ DoScrapeFail == \E h \in Targets : Step([R("Scrape") EXCEPT !.h = h], Scrape(w, 
 DoRestart == Step(R("Restart"), Restart(w))
 DoRestartFail == Step(R("RestartReloadFails"), RestartReloadFails(w))
 DoTick    == w.clock < MaxClock /\ Step(R("Tick"), Tick(w))
+\* the configuration is reloaded with other metric relabeling rules: the bookkeeping is untouched, later scrapes are counted by the new rules
+DoReconfig == Sample > 0 /\ Step(R("Reconfig"), Reconfig(w))
 DoSetHead == \E n \in {0, 7, 40} : n # w.promHead /\ Step([R("SetHead") EXCEPT !.n = n], SetHead(w, n))
 
 Init == w = Restart(Init0) /\ hist = <<>>     \* a sidecar always loads its (here absent) store at start
-Next == Len(hist) < MaxLen /\ (DoUpdate \/ DoUpdateRej \/ DoScrapeOK \/ DoScrapeFail \/ DoRestart \/ DoRestartFail \/ DoTick \/ DoSetHead)
+Next == Len(hist) < MaxLen /\ (DoUpdate \/ DoUpdateRej \/ DoScrapeOK \/ DoScrapeFail \/ DoRestart \/ DoRestartFail \/ DoReconfig \/ DoTick \/ DoSetHead)
 Spec == Init /\ [][Next]_vars
 View == w
 \* generation: a behaviour is exported when it reaches MaxLen (checked as an "invariant", which
